@@ -58,23 +58,21 @@ theorem step_mono (H : Heap) (op : Op) :
     split
     · exact ⟨Nat.le_refl _, [], by simp⟩
     · split <;> exact ⟨Nat.le_refl _, [], by simp⟩
-  | newCaller t pmap =>
+  | newParams d =>
     simp only [step]
     split
-    · split
-      · exact ⟨Nat.le_refl _, [], by simp⟩
-      · split
-        · exact ⟨Nat.le_refl _, [], by simp⟩
-        · split
-          · rename_i H' n h
-            have := mkConn_conns_le h
-            exact ⟨this.1, [], by simp [this.2]⟩
-          · exact ⟨Nat.le_refl _, [], by simp⟩
-    · split
-      · rename_i H' n h
-        have := mkConn_conns_le h
-        exact ⟨this.1, [], by simp [this.2]⟩
-      · exact ⟨Nat.le_refl _, [], by simp⟩
+    · exact ⟨Nat.le_refl _, [d], rfl⟩
+    · exact ⟨Nat.le_refl _, [], by simp⟩
+  | newClass bases mro pmap own =>
+    simp only [step]
+    split <;> exact ⟨Nat.le_refl _, [], by simp⟩
+  | newCaller t cls =>
+    rcases step_newCaller_cases H t cls with ⟨e, h⟩ | ⟨cl, _, _, h⟩ | ⟨H', n, t', cl, hmk, _, _, h⟩
+    · rw [h]; exact ⟨Nat.le_refl _, [], by simp⟩
+    · rw [h]; exact ⟨Nat.le_refl _, [], by simp⟩
+    · rw [h]
+      have := mkConn_conns_le hmk
+      exact ⟨this.1, [], by simp [this.2]⟩
   | clone k own =>
     simp only [step]
     split
@@ -90,26 +88,17 @@ theorem step_mono (H : Heap) (op : Op) :
     split
     · split <;> exact ⟨Nat.le_refl _, [], by simp⟩
     · exact ⟨Nat.le_refl _, [], by simp⟩
-  | call k comps args =>
-    simp only [step]
-    have h1 := getConn_conns_le (H := H) k comps
-    have d1 := getConn_dicts H k comps
-    split
-    · rename_i H' c' heq
-      have : H' = (getConn H k comps).1 := by rw [heq]
-      subst this
-      have h2 := request_conns (getConn H k comps).1 c' args
-      obtain ⟨y2, d2⟩ := request_dicts (getConn H k comps).1 c' args
-      split
-      · rename_i H'' s heq2
-        have : H'' = (request (getConn H k comps).1 c' args).1 := by rw [heq2]
-        subst this; exact ⟨by rw [h2]; exact h1, y2, by rw [d2, d1]⟩
-      · rename_i H'' e heq2
-        have : H'' = (request (getConn H k comps).1 c' args).1 := by rw [heq2]
-        subst this; exact ⟨by rw [h2]; exact h1, y2, by rw [d2, d1]⟩
-    · rename_i H' e heq
-      have : H' = (getConn H k comps).1 := by rw [heq]
-      subst this; exact ⟨h1, [], by simp [d1]⟩
+  | call k m args =>
+    rcases step_call_cases H k m args with ⟨e, h⟩ | ⟨comps, a', h⟩
+    · rw [h]; exact ⟨Nat.le_refl _, [], by simp⟩
+    · rw [h]
+      have h1 := getConn_conns_le (H := H) k comps
+      have d1 := getConn_dicts H k comps
+      rcases doCall_heap H k comps a' with h2 | ⟨c', h2⟩
+      · rw [h2]; exact ⟨h1, [], by simp [d1]⟩
+      · rw [h2]
+        obtain ⟨y2, d2⟩ := request_dicts (getConn H k comps).1 c' a'
+        exact ⟨by rw [request_conns]; exact h1, y2, by rw [d2, d1]⟩
   | request c' args =>
     simp only [step]
     have h2 := request_conns H c' args
@@ -365,19 +354,13 @@ theorem step_userList {H : Heap} (hi : Inv H) {l : Nat} (hl : l ∈ H.userLists)
       · have := (hi.user_ok l hl).2 c cn hcn
         exact ⟨by simp only []; rw [List.getElem?_set_ne this], hl⟩
       · exact same
-  | newCaller t pmap =>
-    simp only [step]
-    split
-    · split
-      · exact same
-      · split
-        · exact same
-        · split
-          · rename_i H' n h; have hm := mkConn_lists h; exact ext hm
-          · exact same
-    · split
-      · rename_i H' n h; have hm := mkConn_lists h; exact ext hm
-      · exact same
+  | newParams d => simp only [step]; split <;> exact same
+  | newClass bases mro pmap own => simp only [step]; split <;> exact same
+  | newCaller t cls =>
+    rcases step_newCaller_cases H t cls with ⟨e, h⟩ | ⟨cl, _, _, h⟩ | ⟨H', n, t', cl, hmk, _, _, h⟩
+    · rw [h]; exact same
+    · rw [h]; exact same
+    · rw [h]; have hm := mkConn_lists hmk; exact ext hm
   | clone k own =>
     simp only [step]
     split
@@ -391,24 +374,16 @@ theorem step_userList {H : Heap} (hi : Inv H) {l : Nat} (hl : l ∈ H.userLists)
     split
     · split <;> exact same
     · exact same
-  | call k comps args =>
-    simp only [step]
-    have h1 := getConn_lists H k comps
-    split
-    · rename_i H' c' heq
-      have : H' = (getConn H k comps).1 := by rw [heq]
-      subst this
-      have h2 := request_lists (getConn H k comps).1 c' args
-      split
-      · rename_i H'' s heq2
-        have : H'' = (request (getConn H k comps).1 c' args).1 := by rw [heq2]
-        subst this; exact ext ⟨by rw [h2.1]; exact h1.1, by rw [h2.2]; exact h1.2⟩
-      · rename_i H'' e heq2
-        have : H'' = (request (getConn H k comps).1 c' args).1 := by rw [heq2]
-        subst this; exact ext ⟨by rw [h2.1]; exact h1.1, by rw [h2.2]; exact h1.2⟩
-    · rename_i H' e heq
-      have : H' = (getConn H k comps).1 := by rw [heq]
-      subst this; exact ext h1
+  | call k m args =>
+    rcases step_call_cases H k m args with ⟨e, h⟩ | ⟨comps, a', h⟩
+    · rw [h]; exact same
+    · rw [h]
+      have h1 := getConn_lists H k comps
+      rcases doCall_heap H k comps a' with h2 | ⟨c', h2⟩
+      · rw [h2]; exact ext h1
+      · rw [h2]
+        have h3 := request_lists (getConn H k comps).1 c' a'
+        exact ext ⟨by rw [h3.1]; exact h1.1, by rw [h3.2]; exact h1.2⟩
   | request c' args =>
     simp only [step]
     have h2 := request_lists H c' args
@@ -432,16 +407,36 @@ theorem run_userList {H : Heap} (hi : Inv H) {l : Nat} (hl : l ∈ H.userLists) 
 
 /-! ## the caller's dictionaries -/
 
-/-- the caller's dict objects exist and hold text only (they are made by `newDict`) -/
-def DInv (H : Heap) : Prop := ∀ r, r ∈ H.userDicts → ∃ u : UDict, H.dicts[r]? = some (ofUDict u)
+/-- a dict / pair-sequence object as a caller makes it: every value has a `str()` -/
+def CallerCell (d : Dict) : Prop := ∀ kv, kv ∈ d → (HVal.text kv.2).isSome = true
+
+theorem CallerCell_ofUDict (u : UDict) : CallerCell (ofUDict u) := by
+  intro kv hkv
+  simp only [ofUDict, List.mem_map] at hkv
+  obtain ⟨x, _, rfl⟩ := hkv
+  rfl
+
+theorem toUDict_of_CallerCell {d : Dict} (h : CallerCell d) : ∃ u, toUDict d = some u := by
+  induction d with
+  | nil => exact ⟨[], rfl⟩
+  | cons kv r ih =>
+    obtain ⟨k, v⟩ := kv
+    obtain ⟨u, hu⟩ := ih (fun x hx => h x (List.mem_cons_of_mem _ hx))
+    have hv := h (k, v) List.mem_cons_self
+    cases ht : HVal.text v with
+    | none => simp [ht] at hv
+    | some t => exact ⟨(k, t) :: u, by simp [toUDict, ht, hu]⟩
+
+/-- the caller's dict / params objects exist and hold values a caller can put there -/
+def DInv (H : Heap) : Prop := ∀ r, r ∈ H.userDicts → ∃ d, H.dicts[r]? = some d ∧ CallerCell d
 
 theorem DInv.empty : DInv Heap.empty := by
   intro r hr; simp [Heap.empty] at hr
 
 theorem step_userDicts (H : Heap) (op : Op) :
     (step H op).1.userDicts = H.userDicts ∨
-    ∃ d, (step H op).1.userDicts = H.userDicts ++ [H.dicts.length] ∧
-      (step H op).1.dicts = H.dicts ++ [ofUDict d] := by
+    ∃ d, CallerCell d ∧ (step H op).1.userDicts = H.userDicts ++ [H.dicts.length] ∧
+      (step H op).1.dicts = H.dicts ++ [d] := by
   cases op with
   | newList as => exact Or.inl rfl
   | listAppend l a =>
@@ -449,7 +444,7 @@ theorem step_userDicts (H : Heap) (op : Op) :
     split
     · split <;> exact Or.inl rfl
     · exact Or.inl rfl
-  | newDict d => exact Or.inr ⟨d, rfl, rfl⟩
+  | newDict d => exact Or.inr ⟨ofUDict d, CallerCell_ofUDict d, rfl, rfl⟩
   | mk t own plain =>
     simp only [step]
     split
@@ -462,23 +457,22 @@ theorem step_userDicts (H : Heap) (op : Op) :
     split
     · exact Or.inl rfl
     · split <;> exact Or.inl rfl
-  | newCaller t pmap =>
+  | newParams d =>
     simp only [step]
     split
-    · split
-      · exact Or.inl rfl
-      · split
-        · exact Or.inl rfl
-        · split
-          · rename_i H' n h
-            obtain ⟨_, _, _, _, _, _, _, _, hd, _⟩ := mkConn_spec h
-            exact Or.inl hd.2
-          · exact Or.inl rfl
-    · split
-      · rename_i H' n h
-        obtain ⟨_, _, _, _, _, _, _, _, hd, _⟩ := mkConn_spec h
-        exact Or.inl hd.2
-      · exact Or.inl rfl
+    · rename_i hall
+      refine Or.inr ⟨d, ?_, rfl, rfl⟩
+      intro kv hkv
+      exact List.all_eq_true.mp hall kv hkv
+    · exact Or.inl rfl
+  | newClass bases mro pmap own => simp only [step]; split <;> exact Or.inl rfl
+  | newCaller t cls =>
+    rcases step_newCaller_cases H t cls with ⟨e, h⟩ | ⟨cl, _, _, h⟩ | ⟨H', n, t', cl, hmk, _, _, h⟩
+    · rw [h]; exact Or.inl rfl
+    · rw [h]; exact Or.inl rfl
+    · rw [h]
+      obtain ⟨_, _, _, _, _, _, _, _, hd, _⟩ := mkConn_spec hmk
+      exact Or.inl hd.2
   | clone k own =>
     simp only [step]
     split
@@ -494,24 +488,14 @@ theorem step_userDicts (H : Heap) (op : Op) :
     split
     · split <;> exact Or.inl rfl
     · exact Or.inl rfl
-  | call k comps args =>
-    simp only [step]
-    have h1 := getConn_userDicts H k comps
-    split
-    · rename_i H' c' heq
-      have : H' = (getConn H k comps).1 := by rw [heq]
-      subst this
-      have h2 := (request_effect (getConn H k comps).1 c' args).userDicts
-      split
-      · rename_i H'' s heq2
-        have : H'' = (request (getConn H k comps).1 c' args).1 := by rw [heq2]
-        subst this; exact Or.inl (h2.trans h1)
-      · rename_i H'' e heq2
-        have : H'' = (request (getConn H k comps).1 c' args).1 := by rw [heq2]
-        subst this; exact Or.inl (h2.trans h1)
-    · rename_i H' e heq
-      have : H' = (getConn H k comps).1 := by rw [heq]
-      subst this; exact Or.inl h1
+  | call k m args =>
+    rcases step_call_cases H k m args with ⟨e, h⟩ | ⟨comps, a', h⟩
+    · rw [h]; exact Or.inl rfl
+    · rw [h]
+      have h1 := getConn_userDicts H k comps
+      rcases doCall_heap H k comps a' with h2 | ⟨c', h2⟩
+      · rw [h2]; exact Or.inl h1
+      · rw [h2]; exact Or.inl ((request_effect (getConn H k comps).1 c' a').userDicts.trans h1)
   | request c' args =>
     simp only [step]
     have h2 := (request_effect H c' args).userDicts
@@ -526,18 +510,18 @@ theorem step_userDicts (H : Heap) (op : Op) :
 theorem step_dinv {H : Heap} (hd : DInv H) (op : Op) : DInv (step H op).1 := by
   intro r hr
   obtain ⟨_, y, hy⟩ := step_mono H op
-  have old : r ∈ H.userDicts → ∃ u : UDict, (step H op).1.dicts[r]? = some (ofUDict u) := by
+  have old : r ∈ H.userDicts → ∃ d, (step H op).1.dicts[r]? = some d ∧ CallerCell d := by
     intro h
-    obtain ⟨u, hu⟩ := hd r h
+    obtain ⟨d, hu, hc⟩ := hd r h
     have hlt := (List.getElem?_eq_some_iff.mp hu).1
-    exact ⟨u, by rw [hy, List.getElem?_append_left hlt]; exact hu⟩
-  rcases step_userDicts H op with h | ⟨d, h1, h2⟩
+    exact ⟨d, by rw [hy, List.getElem?_append_left hlt]; exact hu, hc⟩
+  rcases step_userDicts H op with h | ⟨d, hc, h1, h2⟩
   · rw [h] at hr; exact old hr
   · rw [h1] at hr
     rcases List.mem_append.mp hr with h | h
     · exact old h
     · simp at h; subst h
-      exact ⟨d, by rw [h2]; simp⟩
+      exact ⟨d, by rw [h2]; simp, hc⟩
 
 theorem run_dinv {H : Heap} (hd : DInv H) (ops : List Op) : DInv (run H ops) := by
   induction ops generalizing H with
@@ -545,8 +529,9 @@ theorem run_dinv {H : Heap} (hd : DInv H) (ops : List Op) : DInv (run H ops) := 
   | cons op ops ih => exact ih (step_dinv hd op)
 
 theorem optParams_user {H : Heap} (hd : DInv H) {r : Nat} (hr : r ∈ H.userDicts) :
-    ∃ u : UDict, optDict H (some r) = some (some (ofUDict u)) ∧ optParams H (some r) = some (some u) := by
-  obtain ⟨u, hu⟩ := hd r hr
-  exact ⟨u, by simp [optDict, hu], by simp [optParams, hu, toUDict_ofUDict]⟩
+    ∃ d u, optDict H (some r) = some (some d) ∧ optParams H (some r) = some (some u) := by
+  obtain ⟨d, hu, hc⟩ := hd r hr
+  obtain ⟨u, htu⟩ := toUDict_of_CallerCell hc
+  exact ⟨d, u, by simp [optDict, hu], by simp [optParams, hu, htu]⟩
 
 end HttpConn
